@@ -180,6 +180,9 @@ func runC10(c *eng.Ctx) {
 	c.Rule("R01.8", "K5")
 	ruleLogShapes(c)
 	c.Floor(20)
+	c.Rule("R01.9", "K5")
+	ruleReaderSegment(c)
+	c.Floor(6)
 
 	// ---- R10.5 termination on sparse logs
 	c.Rule("R10.5", "K1")
